@@ -264,7 +264,28 @@ class Recon:
             inside = [d for d in defs if d.node in body]
             outside = [d for d in defs if d.node not in body]
             if inside and outside:
-                entry = [self._def(ctx, d, binds, depth + 1) for d in outside]
+                # value on loop entry = what reaches the header from outside the loop; inside an outer loop this can be
+                # a value produced by an earlier round of this very loop (then it is itself loop-carried by the outer loop)
+                hdr = ctx.cfg.node_of.get(loop)
+                entry = []
+                key = (ctx.qual, "phi-entry", id(loop), name)
+                if hdr is not None and key not in self._stack:
+                    self._stack.append(key)
+                    try:
+                        for p, _lab in hdr.pred:
+                            if p in body:
+                                continue
+                            pdefs = ctx.cfg.rd_out[p].get(name)
+                            if not pdefs:
+                                continue
+                            if all(d.node not in body for d in pdefs):
+                                entry += [self._def(ctx, d, binds, depth + 1) for d in sorted(pdefs, key=lambda d: d.node.id)]
+                            else:
+                                entry.append(self._from_defs(ctx, name, pdefs, p, binds, depth + 1))
+                    finally:
+                        self._stack.pop()
+                if not entry:
+                    entry = [self._def(ctx, d, binds, depth + 1) for d in outside]
                 entry = _dedup(entry)
                 e = entry[0] if len(entry) == 1 else ("join", tuple(sorted(entry, key=repr)))
                 return ("phi", ctx.qual, ctx.loop_ordinal(loop), e, name)
